@@ -88,8 +88,10 @@ SCAN = _conc("scan", 4, 8, {"runs": 6}, {"runs": 150})
 
 def _fault(tier):
     if tier == "quick":
-        return [{"engine": "fault", "args": {"threads": 16}}]
-    return [{"engine": "fault", "shards": 4, "args": {"threads": 6}}]
+        return [{"engine": "fault", "args": {"threads": 16}},
+                {"engine": "fault", "args": {"threads": 16, "io": "uring"}}]
+    return [{"engine": "fault", "shards": 4, "args": {"threads": 6}},
+            {"engine": "fault", "shards": 4, "args": {"threads": 6, "io": "uring"}}]
 
 
 def _live(mode, rq, rt):
@@ -137,21 +139,23 @@ def _san(tier):
         {"engine": "crash", "args": {"mode": "all", "workloads": 3 if q else 30, "cuts": 30 if q else 150, "threads": 16}},
         {"engine": "fuzzopen", "args": {"images": 500 if q else 20000, "threads": 8}},
         {"engine": "fault", "args": {"threads": 8}} if not q else {"engine": "san", "args": {"mode": "mini", "persistent": 1, "ops": 200}},
+        {"engine": "san", "args": {"mode": "mini", "persistent": 1, "big": 1, "ops": 50}},
         {"engine": "live", "args": {"mode": "live", "runs": 8 if q else 80, "threads": 4}},
         {"engine": "san", "args": {"mode": "direct", "rounds": 20 if q else 200}},
+        {"engine": "fault", "shards": 8 if q else 1, "args": {"threads": 8, "io": "uring"}, "only_shards": [0] if q else None},
     ]}
     tsan = {"lane": "tsan", "parallel": 6, "runs": [
         {"engine": "conc", "shards": 3 if q else 12, "args": {"mode": "lin", "histories": 120 if q else 2000}},
         {"engine": "conc", "shards": 1 if q else 6, "args": {"mode": "scan", "runs": 2 if q else 20}},
         {"engine": "conc", "shards": 1 if q else 6, "args": {"mode": "reuse", "runs": 1 if q else 20}},
-        {"engine": "san", "args": {"mode": "mini", "persistent": 1, "ops": 300}},
+        {"engine": "san", "args": {"mode": "mini", "persistent": 1, "big": 1, "ops": 300}},
     ]}
     miri = {"lane": "miri", "parallel": 8, "runs": [
         {"engine": "san", "shards": 6 if q else 64, "args": {"mode": "mini", "ops": 8 if q else 14}},
         {"engine": "san", "shards": 1 if q else 8, "args": {"mode": "mini", "ops": 4, "persistent": 1}},
     ]}
     memcheck = {"lane": "memcheck", "parallel": 8, "runs": [
-        {"engine": "san", "args": {"mode": "mini", "persistent": 1, "ops": 60}},
+        {"engine": "san", "args": {"mode": "mini", "persistent": 1, "big": 1, "ops": 60}},
         {"engine": "conc", "shards": 1 if q else 4, "args": {"mode": "reuse", "runs": 1 if q else 6}},
         {"engine": "model", "args": {"focus": "all", "configs": "v3", "programs": 1 if q else 8, "steps": 60, "threads": 4}},
         {"engine": "san", "args": {"mode": "direct", "rounds": 4 if q else 40}},
@@ -171,8 +175,8 @@ PLAN = {
     "C05": {"level": "exploration", "engines": _space, "min_nontrivial": 100,
             "assumptions": ["the invariant is asserted only at quiescent points (flush acknowledged, caller threads paused); transient reservations mid-flight are legitimate and not asserted", "OutOfSpace caused by fragmentation on a >90 % full device is not a violation; the drain epilogue checks that an emptied device accepts the original fill again"] + CRASH_ASSUMPTIONS[:2]},
     "C09": {"level": "fault_enumeration", "engines": _fault, "min_nontrivial": 100,
-            "assumptions": CRASH_ASSUMPTIONS + ["faults are injected on the synchronous I/O path (hook H2 disables io_uring) with one flush worker so the I/O calls of a workload can be numbered; each plan runs in its own process because the store keeps a process-wide registry of poisoned files", "read failures are outside the property"]},
-    "C18": {"level": "exploration", "engines": _live("live", 48, 600), "min_nontrivial": 20,
+            "assumptions": CRASH_ASSUMPTIONS + ["faults are injected on the synchronous I/O path (hook H2 disables io_uring) and, in a second pass, on the io_uring path (SQEs completed with EBADF, io_uring_enter failing with EINTR/EIO), with one flush worker so the I/O calls of a workload can be numbered; each plan runs in its own process because the store keeps a process-wide registry of poisoned files", "read failures are outside the property"]},
+    "C18": {"level": "exploration", "engines": _live("live", 60, 720), "min_nontrivial": 20,
             "assumptions": ["termination is judged by bounded progress: every scenario must finish; a watchdog expiry counts as a violation only with a stall signature (no thread consumed CPU for 2 s, none runnable), otherwise it is inconclusive", "every other engine's child/worker runs under the driver's watchdog as well"]},
     "C19": {"level": "exploration", "engines": _live("wb", 48, 288), "min_nontrivial": 12,
             "assumptions": ["'bounded' is judged logically (pending-work accessor reaches zero, durable prefix equals the accepted state); wall-clock only fails a run after 10 s without drain AND 5 s without device activity; drain times are reported as a distribution"] + CRASH_ASSUMPTIONS[:2]},
@@ -187,7 +191,7 @@ PLAN = {
     "C11": {"level": "exploration", "engines": _both(_model("ttl"), _sweep("sweeper", 6, 3, 60, 8), _sweep("ttlcrash", 8, 8, 160, 16), _sweep("bigretire", 2, 2, 24, 8)), "min_nontrivial": 300,
             "assumptions": MODEL_ASSUMPTIONS + CONC_ASSUMPTIONS[:2] + ["sweeper runs use the process-wide virtual clock offset (hook H6) for jumps; bounds around calls are taken from that clock before and after each call"]},
     "C12": {"level": "exploration", "engines": _model("ts"), "min_nontrivial": 300, "assumptions": MODEL_ASSUMPTIONS},
-    "C13": {"level": "exploration", "engines": _both(_model("mem"), MEMLIMIT, _conc("lin", 6, 12, {"histories": 400}, {"histories": 8000})), "min_nontrivial": 300, "assumptions": MODEL_ASSUMPTIONS + CONC_ASSUMPTIONS},
+    "C13": {"level": "exploration", "engines": _both(_model("mem"), MEMLIMIT, _conc("lin", 6, 12, {"histories": 400}, {"histories": 8000}), _crash("ack", 4, 60, cuts_q=60, cuts_t=200)), "min_nontrivial": 300, "assumptions": MODEL_ASSUMPTIONS + CONC_ASSUMPTIONS},
     "C14": {"level": "exploration", "engines": _both(_model("range"), SCAN), "min_nontrivial": 300, "assumptions": MODEL_ASSUMPTIONS + CONC_ASSUMPTIONS},
     "C16": {"level": "exploration", "engines": _both(_model("cache", configs="cachepair", quick_programs=60, thorough_programs=1500), _conc("reuse", 8, 16, {"runs": 6, "cache": 1}, {"runs": 120, "cache": 1}), _cache), "min_nontrivial": 200, "assumptions": MODEL_ASSUMPTIONS + CONC_ASSUMPTIONS},
     "C06": {
